@@ -93,9 +93,28 @@ def handle (fn : String) (a : Json) : R Json := do
     let (r, t) := endpoint resolver cfg caller rq
     pure (obj [("status", ofNat r.status), ("body", bodyJson r.body), ("no_store", ofBool r.noStore),
       ("retry_after", retryJson r.retryAfter), ("body_read", ofBool t.bodyRead), ("resolver_calls", ofNat t.resolverCalls)])
+  | "serve_seq" => do
+    -- one resource instance, a fresh limiter, a history of requests: {allow, per_window, events:[{now, caller, req, outcome}]}
+    let allow ← (← arrF a "allow").mapM str
+    let perWindow ← natF a "per_window"
+    let evs ← (← arrF a "events").mapM fun ej => do
+      let kj ← field ej "caller"
+      let caller : Caller := ⟨← boolF kj "authenticated", ← strF kj "principal"⟩
+      let rj ← field ej "req"
+      let cl ← match fieldOpt rj "content_length" with
+        | none => pure none
+        | some v => do pure (some (← nat v))
+      let rq : Req := ⟨cl, ← natF rj "raw_len", ← parsedOf (← field rj "parsed")⟩
+      let out ← outcomeOf (← field ej "outcome")
+      pure (⟨← intF ej "now", caller, rq, fun _ => out⟩ : Event)
+    let rs := serveAll allow perWindow LimState.fresh evs
+    pure (ofList (rs.map fun (r, t) =>
+      obj [("status", ofNat r.status), ("body", bodyJson r.body), ("no_store", ofBool r.noStore),
+        ("retry_after", retryJson r.retryAfter), ("body_read", ofBool t.bodyRead), ("resolver_calls", ofNat t.resolverCalls)]))
   | "constants" =>
     pure (obj [("max_body", ofNat Gen.C36.maxBodyBytes), ("max_token", ofNat Gen.C36.maxTokenChars),
-      ("success_keys", ofList (Gen.C36.successKeys.map Json.str)), ("fingerprint", Json.str Gen.C36.sourceFingerprint)])
+      ("success_keys", ofList (Gen.C36.successKeys.map Json.str)), ("fingerprint", Json.str Gen.C36.sourceFingerprint),
+      ("window_ticks", ofInt Gen.C36.limiterWindowTicks)])
   | _ => throw s!"unknown function C36.{fn}"
 
 end VgiVerif.C36.Driver
